@@ -232,6 +232,41 @@ func ruleC01b(c *Ctx, rule string) {
 			}
 			c.check(rule, "insert: partition filter applies to followers", ci.i.Pos(), fo, "evaluated under isFollower", "the partition filter is not conditioned on isFollower")
 		}
+		// … and to every entry a follower receives: no path with isFollower==true reaches doInsert around the test
+		if len(part) > 0 {
+			okAll := true
+			badPath := ""
+			for _, d := range dis {
+				_, complete := pathsTo(ti.Blocks[0], d.Block(), func(p pathAtoms) bool {
+					follower := p.has(func(a atom) bool {
+						pr, isP := a.v.(*ssa.Parameter)
+						return isP && a.pos && typeStr(pr.Type()) == "bool"
+					})
+					if !follower {
+						return true
+					}
+					for _, pb := range p.blocks {
+						for _, ci := range part {
+							if pb == ci.i.Block() {
+								return true
+							}
+						}
+					}
+					okAll = false
+					var bs []string
+					for _, pb := range p.blocks {
+						bs = append(bs, "b"+itoa(pb.Index))
+					}
+					badPath = strings.Join(bs, ">")
+					return false
+				})
+				if !complete && okAll {
+					okAll = false
+					badPath = "path enumeration incomplete"
+				}
+			}
+			c.check(rule, "insert: every follower entry passes the partition filter", part[0].i.Pos(), okAll, "no path with isFollower==true reaches doInsert around inPartition", "a follower can store an entry without the partition test (path "+badPath+"): a table whose partition keys differ from those the entry was routed by (e.g. a table without PartitionBy on a stream that also feeds a keyed table) stores points that belong to other partitions — they are then counted on several partitions")
+		}
 	}
 	if di := c.need(rule, "(*z.table).doInsert"); di != nil {
 		ins := asInstrs(callsTo(di, "(*z.rowStore).insert"))
